@@ -39,8 +39,8 @@ Lemma sm_unfold : forall m needle h th tn,
       end
   end.
 Proof.
-  intros m needle h th tn Hh Hn. unfold search_matches_h.
-  rewrite Hh. cbn [bind]. rewrite Hn. cbn [bind]. reflexivity.
+  intros m needle h th tn Hh Hn. unfold search_matches_h, search_matches_g.
+  rewrite Hh. cbn [bind]. rewrite Hn. cbn [bind]. destruct m; reflexivity.
 Qed.
 
 Lemma sm_equals : forall needle h th tn,
